@@ -54,12 +54,12 @@ NEEDS_READER = True  # the attached C01 clauses read the netlisters' conventions
 
 
 def check(repo: Repo, R) -> None:
-    pairing(repo, R)
-    shared.owner_only_writes(repo, R, "C04.2-owner-only-writes",
+    R.run(pairing, repo, R)
+    R.run(shared.owner_only_writes, repo, R, "C04.2-owner-only-writes",
                              why="a writer outside connect/replace/disconnect leaves a stale or missing back-reference; a replaced port reference, bundle or no-connect is then still followed by a later pass")
-    one_ref_per_port(repo, R)
-    snapshot_iteration(repo, R)
-    funnels(repo, R)
+    R.run(one_ref_per_port, repo, R)
+    R.run(snapshot_iteration, repo, R)
+    R.run(funnels, repo, R)
     # what elaboration makes of the last connection: the clauses of reference resolution that decide which net a
     # (re-)connected port ends up on
     from . import c01
@@ -73,7 +73,7 @@ def check(repo: Repo, R) -> None:
             return "C04.6-last-connection-resolved"
         return None
 
-    c01.check(repo, shared.Retag(R, _sel, "the connection made last is not what the port is built on: a reference group finds no (or another) source, and the port is moved onto a fresh or stale net"))
+    R.run(c01.check, repo, shared.Retag(R, _sel, "the connection made last is not what the port is built on: a reference group finds no (or another) source, and the port is moved onto a fresh or stale net"))
     R.floor("C04.1-conns-backref-pairing", 6)
     R.floor("C04.3-one-ref-per-port", 4)
     R.floor("C04.4-snapshot-iteration", 3)
